@@ -32,6 +32,19 @@ var costed = map[string]string{
 	"bytes.Index": "BytesIndex", "bytes.Contains": "BytesContains", "bytes.Count": "BytesCount", "bytes.IndexByte": "BytesIndexByte", "bytes.Replace": "BytesReplace", "bytes.TrimSpace": "BytesTrimSpace",
 }
 
+// clocked lists the functions of package time that read the clock or arm a timer: inside a
+// simulation they are served by the simulated clock (verif/simrt/clock.go).
+var clocked = map[string]string{
+	"time.Now": "Now", "time.Since": "Since", "time.Until": "Until", "time.Sleep": "Sleep", "time.After": "After", "time.NewTimer": "NewTimer", "time.AfterFunc": "AfterFunc",
+}
+
+// unmodelledFuncs are sources of time or blocking the simulator has no model for: a tree that
+// uses one cannot be simulated faithfully and the check says so (exit 2) instead of guessing.
+var unmodelledFuncs = map[string]bool{
+	"time.Tick": true, "time.NewTicker": true, "context.WithTimeout": true, "context.WithDeadline": true, "context.WithTimeoutCause": true, "context.WithDeadlineCause": true,
+	"signal.Notify": true,
+}
+
 // regexpScans lists the regexp methods whose first argument is scanned.
 var regexpScans = map[string]bool{
 	"Match": true, "MatchString": true, "Find": true, "FindString": true, "FindIndex": true, "FindStringIndex": true, "FindSubmatch": true, "FindStringSubmatch": true,
@@ -364,6 +377,10 @@ func (rw *rewriter) syncMethod(call *ast.CallExpr) (typ, method string, sel *ast
 		if named.Obj().Name() == "Value" {
 			return "reflect.Value", fn.Name(), se, selection
 		}
+	case "time":
+		if named.Obj().Name() == "Timer" || named.Obj().Name() == "Ticker" {
+			return "time." + named.Obj().Name(), fn.Name(), se, selection
+		}
 	}
 	return
 }
@@ -519,6 +536,17 @@ func (rw *rewriter) walk(n ast.Node, depth int, opts Options) error {
 			if se, ok := x.Fun.(*ast.SelectorExpr); ok {
 				if pk, ok := se.X.(*ast.Ident); ok {
 					if pn, ok := rw.info.Uses[pk].(*types.PkgName); ok {
+						if repl := clocked[pn.Imported().Path()+"."+se.Sel.Name]; repl != "" {
+							rw.site(x.Pos(), "clock")
+							rw.replace(se.Pos(), se.End(), alias+"."+repl)
+							if rw.f.keep == nil {
+								rw.f.keep = map[string]bool{}
+							}
+							rw.f.keep[pk.Name+"."+se.Sel.Name] = true // keeps the import used
+						}
+						if unmodelledFuncs[pn.Imported().Name()+"."+se.Sel.Name] {
+							rw.rep.Unmodelled = append(rw.rep.Unmodelled, fmt.Sprintf("%s:%d: %s.%s", rw.f.rel, rw.fset.Position(x.Pos()).Line, pn.Imported().Name(), se.Sel.Name))
+						}
 						if repl := costed[pn.Imported().Path()+"."+se.Sel.Name]; repl != "" {
 							rw.site(x.Pos(), "stdcost")
 							rw.replace(se.Pos(), se.End(), alias+"."+repl)
@@ -611,6 +639,22 @@ func (rw *rewriter) walk(n ast.Node, depth int, opts Options) error {
 					rw.replace(se.X.End(), x.Lparen+1, path+", ")
 					visit(se.X, depth+1)
 					visit(x.Args[0], depth+1)
+					return
+				case typ == "time.Timer" && (method == "Stop" && len(x.Args) == 0 || method == "Reset" && len(x.Args) == 1):
+					rw.site(x.Pos(), "clock")
+					path, ptr := fieldPath(selection)
+					amp := "&"
+					if ptr {
+						amp = ""
+					}
+					rw.insert(se.X.Pos(), fmt.Sprintf("%s.Timer%s(%s", alias, method, amp), depth)
+					if method == "Stop" {
+						rw.replace(se.X.End(), x.Rparen+1, path+")")
+					} else {
+						rw.replace(se.X.End(), x.Lparen+1, path+", ")
+						visit(x.Args[0], depth+1)
+					}
+					visit(se.X, depth+1)
 					return
 				case typ == "reflect.Value" && method == "MapKeys":
 					sid := rw.site(x.Pos(), "reflectkeys")
